@@ -61,6 +61,10 @@ pub struct Case {
     /// kind 4: what the joined file holds (nothing at all, an empty line, a line that is no row, a row with another key)
     #[serde(default)]
     pub joined_variant: u8,
+    /// 0 = every file is a regular file; k > 0: in an additional run, file (k - 1) mod #files reaches the executor
+    /// through a named pipe (a handle without a size: what --stdin fed by a pipe, a FIFO, <(...) amount to)
+    #[serde(default)]
+    pub pipe: u8,
 }
 
 pub struct C12;
@@ -129,7 +133,16 @@ struct Observed {
 }
 
 fn run_kind(ctx: &Ctx, kind: u8, contents: &[Vec<u8>]) -> Result<Observed, Failure> {
-    let panic_fail = |e: String| Failure::new("panic", e);
+    run_kind_piped(ctx, kind, contents, None)
+}
+
+/// `piped`: index of the queried file that is delivered through a named pipe instead of a regular file.
+fn run_kind_piped(ctx: &Ctx, kind: u8, contents: &[Vec<u8>], piped: Option<usize>) -> Result<Observed, Failure> {
+    let panic_fail = |e: String| if e.starts_with("harness:") { Failure::new("harness-problem", e) } else { Failure::new("panic", e) };
+    let run_query = |ctx: &Ctx, defs: &str, q: &str, contents: &[Vec<u8>]| match piped {
+        Some(i) if kind != 2 => run_query_piped(ctx, defs, q, contents, i),
+        _ => run_query(ctx, defs, q, contents),
+    };
     match kind {
         k if k >= 4 => {
             // every line of the queried files has no partner: an OUTER JOIN presents each of them once all the same
@@ -261,7 +274,7 @@ impl Property for C12 {
          statement kinds: SELECT input, COUNT(*)+ARRAY_AGG(input), a join that loads the bytes as the joined file, a selective table, the queried side of an OUTER JOIN whose joined file (empty, an empty line, a line that is no row, a row with another key) has no partner for any line. Oracle: model line splitter (split at LF, one CR before it \
          tolerated either way - but the same way in the queried files and in the joined file -, unterminated last line included): the query sees the lines of file 1, then file 2, ... exactly once in order; total_lines = number of lines; a run over several \
          LF-terminated files = a run over their concatenation; after an invalid line either every later well-formed line is still processed or an error is reported. Per case, for <= 6 lines, \
-         all 2^(n-1) splits into files are tried. Non-trivial: >= 2 files, or a final line without newline, or a CRLF line, or an invalid line followed by >= 1 valid line; distinct by case."
+         all 2^(n-1) splits into files are tried. In a fifth of the cases one of the queried files is, in an additional run, delivered through a named pipe (a handle without a size that cannot be repositioned - --stdin fed by a pipe, a FIFO, <(...)): same model, and the same result as from the regular file. Non-trivial: >= 2 files, or a final line without newline, or a CRLF line, or an invalid line followed by >= 1 valid line; distinct by case."
             .to_string()
     }
 
@@ -285,7 +298,7 @@ impl Property for C12 {
     }
 
     fn label_floors(&self) -> Vec<(&'static str, f64)> {
-        vec![("multi-file", 0.2), ("no-final-newline", 0.1), ("crlf", 0.1)]
+        vec![("multi-file", 0.2), ("no-final-newline", 0.1), ("crlf", 0.1), ("named-pipe", 0.1)]
     }
 
     fn generate(&self, t: &mut Tape, ctx: &Ctx) -> Case {
@@ -334,7 +347,9 @@ impl Property for C12 {
             many.extend(files[0].drain(..));
             files[0] = many;
         }
-        Case { files, kind, joined_variant }
+        // drawn last: the cases of earlier tapes stay what they were
+        let pipe = if t.chance(1, 5) { 1 + t.draw(4) as u8 } else { 0 };
+        Case { files, kind, joined_variant, pipe }
     }
 
     fn check(&self, case: &Case, ctx: &Ctx, obs: &mut Obs) -> Result<(), Failure> {
@@ -404,6 +419,30 @@ impl Property for C12 {
                     "cr-handling-differs: queried vs joined file",
                     format!("the same bytes give different lines when read as the queried file and as the joined file; first difference at line {}: queried {:?}, joined {:?}", first, queried.lines.get(first), joined.lines.get(first)),
                 ));
+            }
+        }
+
+        // 5. one of the files arrives through a named pipe (no size, no seeking): the same lines, the same way
+        if case.pipe > 0 && kind != 2 {
+            let idx = (case.pipe as usize - 1) % case.files.len();
+            match run_kind_piped(ctx, kind, &contents, Some(idx)) {
+                Err(f) if f.signature == "harness-problem" => {
+                    // no named pipes where the scratch files live: nothing is learnt, nothing is claimed
+                    obs.label("named-pipe-unavailable");
+                    obs.unspecified += 1;
+                }
+                Err(f) => return Err(f),
+                Ok(piped) => {
+                    obs.label("named-pipe");
+                    obs.inner += 1;
+                    compare(kind, &case.files, &piped).map_err(|f| Failure::new(format!("named-pipe: {}", f.signature), format!("file {} of {} delivered through a named pipe\n  {}", idx + 1, case.files.len(), f.message)))?;
+                    if piped.errored != observed.errored || (!observed.errored && (piped.lines != observed.lines || piped.count != observed.count || piped.total_lines != observed.total_lines)) {
+                        return Err(Failure::new(
+                            format!("named-pipe-differs: kind{}", kind),
+                            format!("file {} of {} delivered through a named pipe: {} lines (error: {}), as a regular file: {} lines (error: {})", idx + 1, case.files.len(), piped.lines.len(), piped.errored, observed.lines.len(), observed.errored),
+                        ));
+                    }
+                }
             }
         }
 
